@@ -12,6 +12,7 @@ import (
 	"path/filepath"
 	"sort"
 	"strings"
+	"sync"
 
 	"golang.org/x/tools/go/packages"
 )
@@ -37,6 +38,7 @@ type Prog struct {
 	Blocks    map[string]*Block    // same key
 	BlockList []*Block
 	Lemmas    map[string]*Block // "pkgname.lemma"
+	OpaqueSpec map[string]bool  // funcKey of opaque spec functions
 	GInit     map[*types.Var]*GlobalInit
 	InitFuncs map[string][]*FuncInfo // pkg path -> init functions in file order
 	Written   map[*types.Var][]token.Position
@@ -46,6 +48,8 @@ type Prog struct {
 	Extra     *types.Info // types of invariant expressions checked with CheckExpr
 	Overlays  map[string]string
 	ModPath   string
+	mu        sync.Mutex
+	extraMu   sync.RWMutex
 }
 
 func funcKey(pkgPath string, recv string, name string) string {
@@ -67,7 +71,7 @@ func recvTypeName(t types.Type) string {
 
 func LoadProg(root string) (*Prog, error) {
 	p := &Prog{Root: root, Pkgs: map[string]*packages.Package{}, Funcs: map[*types.Func]*FuncInfo{},
-		FuncByKey: map[string]*FuncInfo{}, Blocks: map[string]*Block{}, Lemmas: map[string]*Block{},
+		FuncByKey: map[string]*FuncInfo{}, Blocks: map[string]*Block{}, Lemmas: map[string]*Block{}, OpaqueSpec: map[string]bool{},
 		GInit: map[*types.Var]*GlobalInit{}, InitFuncs: map[string][]*FuncInfo{}, Written: map[*types.Var][]token.Position{},
 		LoopOrd: map[ast.Stmt]int{}, LoopFunc: map[ast.Stmt]*FuncInfo{}, strIntern: map[string]int64{}, Overlays: map[string]string{}}
 	p.Extra = &types.Info{Types: map[ast.Expr]types.TypeAndValue{}, Defs: map[*ast.Ident]types.Object{}, Uses: map[*ast.Ident]types.Object{},
@@ -118,6 +122,19 @@ func LoadProg(root string) (*Prog, error) {
 				p.Blocks[funcKey(pkgPath, b.Recv, b.Name)] = b
 			case "lemma":
 				p.Lemmas[b.PkgName+"."+b.Name] = b
+			case "spec":
+				hasLoop := false
+				for _, c := range b.Clauses {
+					if c.Kind == "invariant" || c.Kind == "unroll" || c.Kind == "havoc" {
+						hasLoop = true
+					}
+				}
+				if hasLoop {
+					p.Blocks[funcKey(pkgPath, b.Recv, b.Name)] = b
+				}
+				if b.Opaque {
+					p.OpaqueSpec[funcKey(pkgPath, b.Recv, b.Name)] = true
+				}
 			}
 		}
 	}
@@ -290,6 +307,8 @@ func (p *Prog) scanWrites() {
 
 // CheckExprAt type-checks a spec expression as if written at pos in pkg.
 func (p *Prog) CheckExprAt(pk *packages.Package, pos token.Pos, src string) (ast.Expr, error) {
+	p.extraMu.Lock()
+	defer p.extraMu.Unlock()
 	e, err := parser.ParseExprFrom(p.Fset, "spec-expr", src, 0)
 	if err != nil {
 		return nil, err
